@@ -687,6 +687,9 @@ func judgeAccepted(r *en.R, s *t2server, sessions []*sessResult, desc interface{
 
 // ---- the test ------------------------------------------------------------------------------------
 
+// t2Forgotten is set by c18t2_test.go when that file is part of the build.
+var t2Forgotten func(r *en.R, nextTag func() [8]byte, logf func(string, ...interface{}))
+
 func TestVerifEnumC05T2(t *testing.T) {
 	r := en.New()
 	defer r.Done()
@@ -924,57 +927,11 @@ func TestVerifEnumC05T2(t *testing.T) {
 		judgeAccepted(r, s, sessions, sc.name)
 		s.ln.Close()
 	}
-	// B2. a session whose ClientID the address map has already forgotten ---------------------------
-	// (the map is bounded; with the production capacity of 10240 this takes that many newer carriers, here
-	// the package's map is replaced by one of capacity 2 for the duration of the scenario)
-	if (only == "" || only == "sessions") && r.Mine() {
-		r.Case("sess|forgotten-clientid", true)
-		saved := clientIDAddrMap
-		clientIDAddrMap = newClientIDMap(2)
-		if s, err := startT2Server(); err != nil {
-			r.Incomplete("cannot start the server on a loopback port: " + err.Error())
-		} else {
-			tag := nextTag()
-			var id turbotunnel.ClientID
-			copy(id[:], tag[:])
-			prefix := append(append([]byte{}, turbotunnel.Token[:]...), id[:]...)
-			forgotten := schedule{"carrier-idle-while-three-newer-clients-attach", func(s *t2server, pc *cliPC, _ []byte, ip1, ip2 string) (string, error) {
-				c, err := mustDial(s, ip1, prefix)
-				if err != nil {
-					return "", err
-				}
-				pc.attach(c)
-				time.Sleep(500 * time.Millisecond) // the server has registered this ClientID
-				for k := 0; k < 3; k++ {
-					var other turbotunnel.ClientID
-					copy(other[:], []byte{0xEE, byte(k), 1, 2, 3, 4, 5, 6})
-					oc, err := mustDial(s, fmt.Sprintf("10.8.8.%d", k+1), append(append([]byte{}, turbotunnel.Token[:]...), other[:]...))
-					if err != nil {
-						return "", err
-					}
-					time.Sleep(300 * time.Millisecond)
-					oc.close()
-				}
-				return "\x00forgotten", nil
-			}}
-			x := runSession(s, forgotten, tag, 3000, "3.3.3.3", "")
-			switch {
-			case x.infraErr != nil:
-				r.Incomplete("loopback trouble: " + x.infraErr.Error())
-			case x.timedOut:
-				logf("forgotten-clientid scenario timed out (not judged)")
-			case x.failSig != "":
-				r.Fail(x.failSig, x.failMsg, "forgotten ClientID")
-			default:
-				for _, a := range s.snapshot() {
-					if a.gotTag && a.tag == tag && a.remote != "" && a.remote != "<nil>" {
-						r.Fail("accept:address-for-a-forgotten-clientid", fmt.Sprintf("the address map (capacity 2) had forgotten the session's ClientID when it was established, yet the bridge is told %q (must be none)", a.remote), "forgotten ClientID")
-					}
-				}
-			}
-			s.ln.Close()
-		}
-		clientIDAddrMap = saved
+	// B2. a session whose ClientID the address map has already forgotten: lives in c18t2_test.go (it swaps
+	// an unexported package variable, which the scenarios of this file do not touch, so that this file builds
+	// against trees that reorganise those internals)
+	if t2Forgotten != nil && (only == "" || only == "sessions") && r.Mine() {
+		t2Forgotten(r, nextTag, logf)
 	}
 
 	// C. bursts -----------------------------------------------------------------------------------
